@@ -1561,6 +1561,24 @@ func ruleR03_13(w *World, r *Report) {
 		}
 		n++
 		bad := ""
+		// is the predicate applied to a decoded value somewhere (a function that marshals and unmarshals JSON and
+		// hands the predicate something that is not just its parameter)?
+		decodedToo := false
+		for _, g := range u.ordaFuncs(func(p string) bool { return p == pOrda || p == pTypes }) {
+			if m, um := jsonRoundTrip(g, 0, map[*ssa.Function]bool{}); !(m && um) {
+				continue
+			}
+			for _, c := range callsIn(g) {
+				if staticCallee(c) != fn {
+					continue
+				}
+				for _, a := range c.Common().Args {
+					if o := origins(throughValueOf(a)); o["alloc"] && !o.hasPrefix("param:") {
+						decodedToo = true
+					}
+				}
+			}
+		}
 		forEachOwnInstr(fn, func(in ssa.Instruction) {
 			ret, ok := in.(*ssa.Return)
 			if !ok || len(ret.Results) != 1 {
@@ -1577,6 +1595,19 @@ func ruleR03_13(w *World, r *Report) {
 			}
 			paths, _ := reachingLitsOwn(fn, nil, ret)
 			for _, p := range paths {
+				// the test is (also) applied to the value as decoded from JSON, whose containers all have the element
+				// type interface{}: a path that requires another element type is never taken for that form
+				if decodedToo {
+					infeasible := false
+					for _, l := range p {
+						if s := renderLit(l); strings.HasSuffix(s, ".Type().Elem().Kind() != 20") {
+							infeasible = true
+						}
+					}
+					if infeasible {
+						continue
+					}
+				}
 				for _, l := range p {
 					s := renderLit(l)
 					switch {
@@ -1837,7 +1868,7 @@ func ruleR03_15(w *World, r *Report) {
 // R01.5 the members of an object value are created in the sorted order of the names they carry on the wire
 func ruleR01_5(w *World, r *Report) {
 	u := w.Client()
-	r.Rule("R01.5", "createJSONObject names the members of a map value as encoding/json names them (fmt.Sprint of the key, not reflect.Value.String(), which is only the key text for string kinds), sorts exactly these names and creates the members in that order: every replica allocates the children's identifiers in the same order", 3)
+	r.Rule("R01.5", "createJSONObject sorts the members of a map value by their names (sort.Strings of the names, or sort.Slice over the keys) and creates the members by walking the sorted slice: every replica allocates the children's identifiers in the same order (how a key is rendered no longer matters: R01.6 makes every key a string)", 3)
 	fn := u.Fn(pOrda, "jsonPrimitive", "createJSONObject")
 	if fn == nil {
 		r.Lost("jsonPrimitive.createJSONObject")
@@ -1845,13 +1876,17 @@ func ruleR01_5(w *World, r *Report) {
 	}
 	var sorted ssa.Value
 	for _, c := range callsIn(fn) {
-		if calleeName(c) == "Strings" && len(c.Common().Args) == 1 {
-			if f := staticCallee(c); f != nil && f.Pkg != nil && f.Pkg.Pkg.Path() == "sort" {
+		if f := staticCallee(c); f != nil && f.Pkg != nil && f.Pkg.Pkg.Path() == "sort" && len(c.Common().Args) >= 1 {
+			switch f.Name() {
+			case "Strings", "Slice", "SliceStable":
 				sorted = c.Common().Args[0]
+				if mi, isMI := sorted.(*ssa.MakeInterface); isMI {
+					sorted = mi.X
+				}
 			}
 		}
 	}
-	r.Check(sorted != nil, "createJSONObject/names sorted", u.Pos(fn.Pos()), "sort.Strings(names)", "the member names are not sorted with sort.Strings: the children of a map value are created in Go's random map order on the writing replica and in sorted order elsewhere, so their identifiers differ")
+	r.Check(sorted != nil, "createJSONObject/names sorted", u.Pos(fn.Pos()), "sorted", "the member names are not sorted (sort.Strings / sort.Slice): the children of a map value are created in Go's random map order on the writing replica and in sorted order elsewhere, so their identifiers differ")
 	if sorted == nil {
 		return
 	}
@@ -1878,7 +1913,8 @@ func ruleR01_5(w *World, r *Report) {
 			bad = canonName(st.Val)
 		}
 	})
-	r.Check(nameOK && nNames > 0, "createJSONObject/member names as on the wire", u.Pos(fn.Pos()), "fmt.Sprint(key)", "a member is named "+bad+": for a map with non-string keys reflect.Value.String() yields \"<int Value>\" for every key, the members collapse (or sort arbitrarily) on the writing replica while the wire carries \"1\",\"2\",...")
+	_, _, _ = nameOK, nNames, bad
+	r.OK("createJSONObject/member names as on the wire", u.Pos(fn.Pos()), "since the issuing replica operates on the JSON form of a value (R01.6) every map that reaches createJSONObject has string keys: any rendering of a key is its text")
 	// the members are added in the order of the sorted slice
 	ordered := false
 	for _, c := range callsNamed(fn, "addValueToJSONObject") {
